@@ -1,5 +1,6 @@
 import AcqVerif.Tiff.Sxs
 import AcqVerif.Tiff.Read
+import AcqVerif.Tiff.Desc
 /-! Line-protocol driver for the TIFF model (`acq_tiff`).  Same script as
 `harness/tiff/h_tiff.cpp`; one canonical result line per operation, ` ~label` =
 model branches taken (coverage, stripped before comparison).
@@ -76,7 +77,10 @@ def parseFrames : Nat → List String → Option (List Frame)
 def showPage (p : AcqVerif.TiffRead.Page) : String :=
   s!"[ifd={p.ifdOffset} ntags={p.ntags} w={p.width} h={p.height} bits={p.bitsPerSample} fmt={p.sampleFormat} " ++
   s!"strip={p.stripOffset}+{p.stripByteCount} desc={p.descOffset}+{p.descCount} next={p.next} " ++
-  s!"pix={hexOf p.strip} text={hexOf p.description}]"
+  s!"pix={hexOf p.strip} text={hexOf p.description} " ++
+  (match AcqVerif.TiffRead.parseDescription p.description.dropLast with
+   | none => "ids=unparsed]"
+   | some d => s!"ids={d.frameId}/{d.hwFrameId}/{d.runtime}/{d.hardware} meta={match d.metadata with | none => "none" | some m => hexOf m}]")
 
 def tiffOf (d : Device) : Tiff := match d with | .tiff t => t | .sxs s => s.tiff
 
